@@ -140,11 +140,11 @@ vh::Outcome run_c03(const vh::Case& c, bool with_faults) {
 }
 
 // ================================================================================================ C04 cow_guarded
-using COW = lg::cow_guarded<Tracked>;
-
 struct Commit { uint64_t bit; long lock_call, lock_ret, rel_call = -1, rel_ret = -1; bool cancelled = false; bool committed = false; };
 
-vh::Outcome run_c04(const vh::Case& c) {
+template<class P>
+vh::Outcome run_c04_t(const vh::Case& c) {
+    using COW = lg::cow_guarded<P>;
     reset_case_globals();
     vrt::tstats().dtor_hb_exempt = true;
     vh::Outcome out;
@@ -175,7 +175,7 @@ vh::Outcome run_c04(const vh::Case& c) {
             for (size_t i = 0; i < c.fibers.size(); ++i) {
                 if (c.fibers[i].empty()) continue;
                 vrt::spawn([&, i] {
-                    std::vector<std::pair<COW::shared_handle, uint64_t>> kept;    // long-lived snapshots of this fiber
+                    std::vector<std::pair<typename COW::shared_handle, uint64_t>> kept;    // long-lived snapshots of this fiber
                     for (auto& op : c.fibers[i]) {
                         int kind = op.code % 6;
                         if (kind <= 2) {
@@ -185,7 +185,7 @@ vh::Outcome run_c04(const vh::Case& c) {
                             cm.bit = uint64_t(1) << (nbit++ % 60);
                             cm.lock_call = vrt::now_step();
                             writers_waiting++;
-                            std::optional<COW::handle> hopt;
+                            std::optional<typename COW::handle> hopt;
                             try { hopt.emplace(cow.lock()); }
                             catch (const vrt::InjectedFault&) {
                                 if (!c.sched.fault_k) vrt::fail("escaped-fault", "fault without a plan");
@@ -193,7 +193,7 @@ vh::Outcome run_c04(const vh::Case& c) {
                             }
                             writers_waiting--;
                             if (!hopt) { cm.bit = 0; cm.cancelled = true; continue; }   // never pop: other fibers may have appended meanwhile
-                            COW::handle& h = *hopt;
+                            typename COW::handle& h = *hopt;
                             cm.lock_ret = vrt::now_step();
                             if (!h) vrt::fail("null-handle", "cow_guarded::lock returned a null handle");
                             uint64_t init = h->read();
@@ -224,7 +224,7 @@ vh::Outcome run_c04(const vh::Case& c) {
                                     Commit& c2 = commits.back();
                                     c2.bit = uint64_t(1) << (nbit++ % 60);
                                     c2.lock_call = vrt::now_step();
-                                    COW::handle h2 = cow.lock();
+                                    typename COW::handle h2 = cow.lock();
                                     c2.lock_ret = vrt::now_step();
                                     h2->or_bits(c2.bit);
                                     c2.rel_call = vrt::now_step(); order.push_back(c2.bit);
@@ -233,7 +233,7 @@ vh::Outcome run_c04(const vh::Case& c) {
                                 }
                             } else {
                                 cm.rel_call = vrt::now_step(); order.push_back(cm.bit);
-                                if (op.a & 1) { lbl_moved = true; COW::handle h2(std::move(h)); if (h) vrt::fail("move-not-null", "moved-from write handle is non-null"); h2.reset(); }
+                                if (op.a & 1) { lbl_moved = true; typename COW::handle h2(std::move(h)); if (h) vrt::fail("move-not-null", "moved-from write handle is non-null"); h2.reset(); }
                                 else h.reset();
                                 cm.rel_ret = vrt::now_step(); cm.committed = true; commits_done++;
                                 if (vrt::me().held != 0) vrt::fail("commit-holds-lock", "the writer lock is still held after the handle was released");
@@ -243,7 +243,7 @@ vh::Outcome run_c04(const vh::Case& c) {
                             long call = vrt::now_step();
                             long cd0 = commits_done;
                             long b0 = vrt::me().blocking_ops;
-                            COW::shared_handle s = (op.a % 4 == 0) ? cow.lock_shared() : (op.a % 4 == 1) ? cow.try_lock_shared()
+                            typename COW::shared_handle s = (op.a % 4 == 0) ? cow.lock_shared() : (op.a % 4 == 1) ? cow.try_lock_shared()
                                                  : (op.a % 4 == 2) ? cow.try_lock_shared_for(std::chrono::milliseconds(1)) : cow.try_lock_shared_until(std::chrono::steady_clock::time_point::max());
                             if (vrt::me().blocking_ops != b0) vrt::fail("reader-blocked", "a cow_guarded read acquisition executed a blocking operation");
                             if (!s) vrt::fail("null-handle", "cow_guarded shared acquisition returned null");
@@ -269,7 +269,7 @@ vh::Outcome run_c04(const vh::Case& c) {
             uint64_t fin = cow.lock_shared()->read();
             uint64_t exp = 0; for (auto b : order) exp |= b;
             if (fin != exp) vrt::fail("final-value", "final committed value is not the union of all commits (lost update or cancelled data published)");
-            { COW::handle h = cow.lock(); if (h->read() != exp) vrt::fail("final-value", "write handle after the run does not start from the final value"); h.cancel(); }
+            { typename COW::handle h = cow.lock(); if (h->read() != exp) vrt::fail("final-value", "write handle after the run does not start from the final value"); h.cancel(); }
         }
         long live = vrt::tstats().ctor - vrt::tstats().dtor;
         if (live != 0) vrt::fail("payload-leak", std::to_string(live) + " payload object(s) constructed by cow_guarded were never destroyed (or destroyed twice)");
@@ -283,8 +283,14 @@ vh::Outcome run_c04(const vh::Case& c) {
     return out;
 }
 
+vh::Outcome run_c04(const vh::Case& c) {
+    // payload variants: Tracked (move may throw) and TrackedNX (nothrow-movable: type-trait dependent code paths)
+    if (!c.sched.fault_k && !c.cfg.empty() && c.cfg[0] % 2 == 1) { vh::Outcome o = run_c04_t<vrt::TrackedNX>(c); o.labels.push_back("payload=nothrow-movable"); return o; }
+    return run_c04_t<Tracked>(c);
+}
+
 vh::GenSpec c04_spec(bool thorough) {
-    vh::GenSpec g; g.nfibers = 4; g.max_ops = thorough ? 6 : 4; g.ncodes = 6; g.amax = 4; g.bmax = 4;
+    vh::GenSpec g; g.nfibers = 4; g.cfg_max = {2}; g.max_ops = thorough ? 6 : 4; g.ncodes = 6; g.amax = 4; g.bmax = 4;
     g.sched_len = thorough ? 256 : 176; g.aux_len = 16;
     return g;
 }
